@@ -8,6 +8,11 @@ ROOT="$(cd "$(dirname "$0")/.." && pwd)"
 cd "$ROOT/mc" || exit 2
 export CARGO_NET_OFFLINE=true
 if ! cargo build --offline >"$ROOT/mc/target.build.log" 2>&1; then
+  if [ "$ID" = "C14" ] && ls "$ROOT"/mc/target/debug/deps/libjammdb-*.rlib >/dev/null 2>&1 && grep -q "could not compile .vcheck." "$ROOT/mc/target.build.log"; then
+    # jammdb itself built, the harness (an ordinary client of its public API) no longer compiles against
+    # it: for C14 that is a finding, not a machinery problem; typex does not need the harness binary
+    exec python3 "$ROOT/scripts/typex.py" "$TIER" --harness-build-failed "$ROOT/mc/target.build.log"
+  fi
   tail -40 "$ROOT/mc/target.build.log"
   echo "MACHINERY-ERROR: harness build failed (see above)"; exit 2
 fi
